@@ -122,6 +122,16 @@ def _check_main(ctx, rep: Report):
             if isinstance(n, ast.Call) and ast.unparse(n.func).split(".")[-1] == "_modules_copyable":
                 nuse += 1
                 ok = id(n) in with_exprs
+                if not ok:
+                    # `guard = _modules_copyable()` immediately used as `with guard:` (the name is bound once and only entered)
+                    binds = [a_ for a_ in walk_own(fi.node) if isinstance(a_, ast.Assign) and a_.value is n and len(a_.targets) == 1 and isinstance(a_.targets[0], ast.Name)]
+                    if binds:
+                        nm = binds[0].targets[0].id
+                        uses = [x_ for x_ in walk_own(fi.node) if isinstance(x_, ast.Name) and x_.id == nm and isinstance(x_.ctx, ast.Load)]
+                        entered = [w_ for w_ in walk_own(fi.node) if isinstance(w_, ast.With) and any(isinstance(it.context_expr, ast.Name) and it.context_expr.id == nm for it in w_.items)]
+                        body = [s_ for s_ in ast.walk(fi.node) if isinstance(getattr(s_, "body", None), list) and binds[0] in s_.body]
+                        adjacent = bool(body) and bool(entered) and body[0].body.index(binds[0]) + 1 < len(body[0].body) and body[0].body[body[0].body.index(binds[0]) + 1] is entered[0]
+                        ok = len(uses) == 1 and len(entered) == 1 and adjacent
                 rep.oblige("C20.WITH", short, ok)
                 if not ok:
                     rep.violate(Violation("C20.WITH", f"C20.WITH|{short}", f"{short} uses _modules_copyable() outside a `with` statement: an aborted copy leaves the dispatch table patched",
